@@ -338,6 +338,9 @@ func parseClassSet(sc *scanner) class {
 		sc.Next()
 	}
 	isrange := false
+	// only a single unescaped character can start a range: after a class (%a), an escaped character or
+	// a complete range a '-' is an ordinary member of the set, as in Lua 5.1
+	canrange := false
 	for {
 		ch := sc.Peek()
 		switch ch {
@@ -352,13 +355,15 @@ func parseClassSet(sc *scanner) class {
 			}
 			fallthrough
 		case '-':
-			if len(set.Classes) > 0 {
+			if canrange {
 				sc.Next()
 				isrange = true
+				canrange = false
 				continue
 			}
 			fallthrough
 		default:
+			canrange = ch != '%' && !isrange
 			set.Classes = append(set.Classes, parseClass(sc, false))
 		}
 		if isrange {
